@@ -8,4 +8,4 @@ CONSTANTS
   RegPhases = {}
   WithBad = FALSE
   Bug = {}
-INVARIANTS AtEnd
+
